@@ -9,6 +9,11 @@ from .eng import EngineModel, names_loaded, Raises
 from .callgraph import arg_for_param
 
 
+def _method_view(em, name):
+    """the method with its helpers pasted in (rules about what happens inside it, wherever the code now lives)"""
+    return em.view(_method(em, name))
+
+
 def _method(em, name):
     m = em.repo.lookup_method(em.YP, name)
     if m is None:
@@ -332,11 +337,21 @@ def key_templates(f, keyexpr):
     return out
 
 
-def context_key_sites(em):
-    """reads and writes of eval_context with a computed key: (func, node, 'read'|'write', key expr)"""
+def _touches_ctx(g):
+    return any(isinstance(x, ast.Attribute) and x.attr == 'eval_context' for x in own_nodes(g.node))
+
+
+def context_key_sites(em, include_inlined=False):
+    """reads and writes of eval_context with a computed key: (func, node, 'read'|'write', key expr); functions are seen with
+    their helpers pasted in (a key built by a helper is a key of its caller); a site that was pasted in from a helper which
+    itself accesses the context is reported for that helper only, unless include_inlined"""
     out = []
-    for f in em.repo.all_functions(('engine',)):
+    for f0 in em.repo.all_functions(('engine',)):
+        f = em.view(f0)
         for n in own_nodes_ordered(f.node):
+            g = getattr(n, '_from', None)
+            if g is not None and not include_inlined and _touches_ctx(g):
+                continue
             if isinstance(n, ast.Subscript) and _is_ctx(f, n.value):
                 kind = 'write' if isinstance(n.ctx, ast.Store) else 'read'
                 if not isinstance(n.slice, ast.Constant):
@@ -366,12 +381,13 @@ def rule_key_templates(em, rep, rid, emitter_side=True):
     sites = context_key_sites(em)
     q = _method(em, 'query')
     reg = _method(em, 'register_function')
+    orig = lambda g: getattr(g, 'origin', g)
     n_ok = 0
     for f, n, kind, keyexpr in sites:
         if f.cls is not em.YP:
             continue
         for t in key_templates(f, keyexpr):
-            if f not in (q, reg) and key_shape(t) is None and not any(k == 'lit' and '_' in v for k, v in t):
+            if orig(f) not in (q, reg) and key_shape(t) is None and not any(k == 'lit' and '_' in v for k, v in t):
                 continue        # a key that is merely passed through (e.g. the merge loop of a load)
             shape = key_shape(t)
             key = '%s:%s %s' % (f.qname, kind, norm(keyexpr))
@@ -388,7 +404,7 @@ def rule_key_templates(em, rep, rid, emitter_side=True):
                     continue
             name_hole = t[0][1]
             params = f.params[1:]
-            if f in (q, reg) and name_hole != params[0]:
+            if orig(f) in (q, reg) and name_hole != params[0]:
                 rep.violation(rid, key, 'the name part {%s} of the key is not the predicate name parameter %s' % (name_hole, params[0]), f.loc(n))
                 continue
             rep.ok(rid, key + (' [%s]' % shape if len(key_templates(f, keyexpr)) > 1 else ''),
@@ -489,7 +505,7 @@ def _is_int_local(f, name):
 
 def rule_facts_first(em, rep, rid):
     rep.rule(rid, 'in query() the delegation to the dynamic-fact matcher dominates the call of a looked-up definition')
-    q = _method(em, 'query')
+    q = _method_view(em, 'query')
     cfg = em.cfg(q)
     dyn = [n for n in cfg.nodes if n.kind in ('yieldfrom', 'fornext') and 'match_dynamic' in norm(n.ast)]
     calls = [n for n in cfg.nodes if n.kind == 'call' and isinstance(n.ast.func, ast.Name) and
@@ -510,8 +526,8 @@ def rule_facts_first(em, rep, rid):
 def rule_exact_then_variadic(em, rep, rid):
     rep.rule(rid, 'in query() the variadic key name_n is consulted only as the default of the exact lookup name_<arity> '
                   '(nested get, conditional expression, or a second lookup guarded by the failure of the first)')
-    q = _method(em, 'query')
-    sites = [(n, key_templates(q, k)) for f, n, kind, k in context_key_sites(em) if f is q and kind == 'read']
+    q = _method_view(em, 'query')
+    sites = [(n, key_templates(q, k)) for f, n, kind, k in context_key_sites(em, include_inlined=True) if f is q and kind == 'read']
     exact = [n for n, ts in sites if ts and all(key_shape(t) == 'exact' for t in ts)]
     var = [n for n, ts in sites if any(key_shape(t) == 'variadic' for t in ts)]
     key = q.qname + ':lookup'
@@ -529,6 +545,12 @@ def rule_exact_then_variadic(em, rep, rid):
         for e in exact:
             if isinstance(e, ast.Call) and len(e.args) > 1 and any(x is v for x in ast.walk(e.args[1])):
                 ok, why = True, 'default of the exact get'
+            # ... through a local that holds nothing but the variadic lookup
+            if isinstance(e, ast.Call) and len(e.args) > 1 and isinstance(e.args[1], ast.Name):
+                defs = [s for s in own_nodes(q.node) if isinstance(s, ast.Assign) and any(is_name(t, e.args[1].id) for t in s.targets)]
+                uses = [x for x in own_nodes(q.node) if is_name(x, e.args[1].id) and isinstance(x.ctx, ast.Load)]
+                if len(defs) == 1 and defs[0].value is v and len(uses) == 1:
+                    ok, why = True, 'default of the exact get (through the local %s)' % e.args[1].id
         # (b) orelse of a conditional on the exact key / guarded statement
         if not ok:
             for p in parents(v):
@@ -618,6 +640,57 @@ def rule_guarded_subscripts(em, rep, rid, fields=('_predicates_store', 'eval_con
     rep.minimum('subscript loads on engine dictionaries', count, 1)
 
 
+def value_origins(em, f, e, depth=0, seen=None):
+    """where a value comes from: 'ctx' (read from self.eval_context), 'new' (an element of a mapping/sequence that is not the
+    engine context: a loop over the loaded script's names), 'param', 'other' - following locals, tuple-unpacking loop
+    targets and the tuples a generator helper yields"""
+    seen = seen if seen is not None else set()
+    out = set()
+    if depth > 6:
+        return {'other'}
+    if isinstance(e, ast.Call) and isinstance(e.func, ast.Attribute) and e.func.attr in ('get', 'pop', 'setdefault') and _is_ctx(f, e.func.value):
+        return {'ctx'}
+    if isinstance(e, ast.Subscript) and _is_ctx(f, e.value):
+        return {'ctx'}
+    if isinstance(e, ast.Name):
+        key = (f.qname, e.id)
+        if key in seen:
+            return set()
+        seen.add(key)
+        if e.id in f.all_params:
+            return {'param'}
+        for s in own_nodes(f.node):
+            if isinstance(s, ast.Assign) and any(is_name(t, e.id) for t in s.targets):
+                out |= value_origins(em, f, s.value, depth + 1, seen)
+            if isinstance(s, (ast.For, ast.comprehension)):
+                tg = s.target
+                elts = tg.elts if isinstance(tg, (ast.Tuple, ast.List)) else [tg]
+                for i, t in enumerate(elts):
+                    if not is_name(t, e.id):
+                        continue
+                    it = s.iter
+                    # a generator helper of the same class: the i-th component of what it yields
+                    callee = None
+                    if isinstance(it, ast.Call) and is_self_attr(it.func) and f.cls is not None:
+                        callee = em.repo.lookup_method(f.cls, it.func.attr)
+                    if callee is not None and callee.is_generator:
+                        for y in own_nodes(callee.node):
+                            if isinstance(y, ast.Yield) and y.value is not None:
+                                comp = y.value.elts[i] if isinstance(y.value, (ast.Tuple, ast.List)) and i < len(y.value.elts) else y.value
+                                out |= value_origins(em, callee, comp, depth + 1, seen)
+                    elif _is_ctx(f, it) or (isinstance(it, ast.Call) and isinstance(it.func, ast.Attribute) and _is_ctx(f, it.func.value)):
+                        out.add('ctx')
+                    else:
+                        out.add('new')
+        return out or {'other'}
+    if isinstance(e, (ast.Constant,)):
+        return {'other'}
+    for c in ast.iter_child_nodes(e):
+        if isinstance(c, ast.expr):
+            out |= value_origins(em, f, c, depth + 1, seen)
+    return out or {'other'}
+
+
 def rule_combine_order(em, rep, rid):
     rep.rule(rid, 'the non-overwrite branch of load_script_from_string passes (existing definition, new definition) in '
                   'that order to the chaining helper; the helper runs its parameters in order, each called separately')
@@ -643,9 +716,9 @@ def rule_combine_order(em, rep, rid):
         if len(c.args) != 2:
             rep.violation(rid, key, 'chaining helper is not called with (old, new)', f.loc(c))
             continue
-        a0, a1 = norm(c.args[0]), norm(c.args[1])
-        old_first = 'self.eval_context' in a0 and 'self.eval_context' not in a1
-        new_second = any(is_name(x) and x.id in loopvars for x in ast.walk(c.args[1]))
+        o0, o1 = value_origins(em, f, c.args[0]), value_origins(em, f, c.args[1])
+        old_first = 'ctx' in o0 and 'new' not in o0 and 'ctx' not in o1
+        new_second = bool(o1 & {'new', 'param'}) and 'ctx' not in o1
         if old_first and new_second:
             rep.ok(rid, key, 'existing definition first, loaded definition second', f.loc(c))
         else:
@@ -758,7 +831,7 @@ def rule_api_unreachable(em, rep, rid):
     keys = context_literal_keys(em)
     rep.minimum('keys of the default engine context', len(keys), 12)
     collide = [k for k in keys if re.fullmatch(r'.+_([0-9]+|n)', k)]
-    q = _method(em, 'query')
+    q = _method_view(em, 'query')
     cfg = em.cfg(q)
     dom = cfg.g.dominators(cfg.entry)
     calls = [n for n in cfg.nodes if n.kind == 'call' and isinstance(n.ast.func, ast.Name) and any(isinstance(a, ast.Starred) for a in n.ast.args)]
@@ -944,7 +1017,7 @@ def rule_argument_order(em, rep, rid):
     rep.rule(rid, 'query() calls the definition as function(*args) with its args parameter untouched; call/N passes the '
                   'goal\'s own arguments followed by the extra ones; register_function takes the arity from the signature or '
                   'the explicit argument')
-    q = _method(em, 'query')
+    q = _method_view(em, 'query')
     args = q.params[2] if len(q.params) > 2 else None
     key = q.qname + ':args'
     touched = [n for n in own_nodes_ordered(q.node) if
@@ -964,7 +1037,7 @@ def rule_argument_order(em, rep, rid):
                 norm(c), ', args modified by %s' % norm(touched[0]) if touched else ''), q.loc(c))
     rep.minimum('definition calls in query()', len(calls), 1)
     # register_function arity
-    reg = _method(em, 'register_function')
+    reg = _method_view(em, 'register_function')
     src = norm(reg.node)
     k2 = reg.qname + ':arity'
     if 'inspect.signature(func).parameters' in src or 'co_argcount' in src or 'getfullargspec' in src:
